@@ -37,6 +37,9 @@ def _axis():
         for d in (1, 2, 3):
             for p in (True, False):
                 ax.append(["ArbitraryOrderLagrange", {"order": o, "dim": d, "permute": p}])
+    # non-default reference interval of the Lagrange element
+    for o, d, iv in ((1, 1, [0, 1]), (2, 1, [0, 1]), (3, 2, [0, 1]), (2, 2, [-2, 3]), (2, 3, [0, 1])):
+        ax.append(["ArbitraryOrderLagrange", {"order": o, "dim": d, "permute": True, "interval": iv}])
     return ax
 
 
@@ -65,7 +68,7 @@ META = {  # per-axis degree, order, completeness space, (lo, hi), number of bubb
 def meta(ax):
     name, kw = ax
     if name == "ArbitraryOrderLagrange":
-        return (kw["order"], kw["order"], "Q", (-1, 1), 0)
+        return (kw["order"], kw["order"], "Q", tuple(kw.get("interval", (-1, 1))), 0)
     return META[name]
 
 
@@ -241,10 +244,10 @@ def ident_check(ax, case, rec):
         kw = ax[1]
         if not kw["permute"] or kw["dim"] == 1:
             if kw["permute"] and kw["dim"] == 1:
-                P = np.asarray(el.points).ravel()
+                P = (np.asarray(el.points, float).ravel() - lo) / (hi - lo) * 2 - 1  # normalised to [-1, 1]
                 rec.require("vtk-line-order", abs(P[0] + 1) < 1e-14 and abs(P[1] - 1) < 1e-14 and np.all(np.diff(P[2:]) > 0))
             return
-        P = np.asarray(el.points, float)
+        P = (np.asarray(el.points, float) - lo) / (hi - lo) * 2 - 1  # normalised to [-1, 1]
         onb = (np.abs(np.abs(P) - 1) < 1e-12).sum(1)  # number of coordinates on the boundary
         cls = kw["dim"] - onb  # 0 vertex, 1 edge, 2 face, 3 volume
         rec.require("vtk-class-order", bool(np.all(np.diff(cls) >= 0)), cls.tolist()[:30])
